@@ -44,7 +44,10 @@ FUNCTIONS = {
     'C19': [(RR, TR + 'startTest'), (RR, TR + 'addSkip'), (RR, TR + 'stopTest'), ('threads_c19', 'threadsupport.enumerate')],
     'C17': [('formatter_c17', 'formatter.XMLOutputFormattingWrapper._record'), ('formatter_c17', 'formatter.parse_unittest'),
             ('formatter_c17', 'formatter.TestSuiteInfo.tests'),
-            ('formatter_c17', 'formatter.XMLOutputFormattingWrapper.writeXMLReports')],
+            ('formatter_c17', 'formatter.XMLOutputFormattingWrapper.writeXMLReports')]
+           # every reported result is recorded exactly once with its own failure / error; the runner writes the reports once
+           + [('formatter_c17', 'formatter.XMLOutputFormattingWrapper.' + m) for m in ('test_failure', 'test_error', 'test_success', 'import_errors')]
+           + [('features_c18', 'runner.Runner.run')],
     'C18': [('features_c18', f) for f in (
         'garbagecollection.Threshold.global_setup', 'garbagecollection.Threshold.global_teardown',
         'garbagecollection.Debug.global_setup', 'garbagecollection.Debug.global_teardown',
